@@ -51,6 +51,9 @@ PROGRAMS = {
     "function-cycle-inside-a-schema-cycle": ({"main.oal": "let s = { 'v (f str) };\nlet f x = { 'g (g x), 's s };\nlet g x = { 'f (f x) };\nres / on get -> <s>;\n"}, REJECT, {}),
     "function-cycle-next-to-a-schema-cycle": ({"main.oal": "let f x = { 'f (h x) };\nlet h x = { 'h (f x) };\nlet a = { 'b b };\nlet b = { 'a a };\nres / on get -> <a>;\nres /f on get -> <f str>;\n"}, REJECT, {}),
     "schema-cycle-next-to-a-function-cycle": ({"main.oal": "let a = { 'b b };\nlet b = { 'a a };\nlet f x = { 'f (h x) };\nlet h x = { 'h (f x) };\nres / on get -> <a>;\nres /f on get -> <f str>;\n"}, REJECT, {}),
+    "function-cycle-sharing-a-component-with-a-schema": ({"main.oal": "let a = { 'p (f {}) };\nlet f x = g x;\nlet g x = f a;\nres / on get -> <a>;\n"}, REJECT, {}),
+    "self-recursive-function-before-a-recursive-schema": ({"main.oal": "let f x = f x;\nlet a = { 'x? a };\nres / on get -> <f {}> :: <status=404, a>;\n"}, REJECT, {}),
+    "recursive-schema-before-a-self-recursive-function": ({"main.oal": "let a = { 'x? a };\nlet f x = f x;\nres / on get -> <f {}> :: <status=404, a>;\n"}, REJECT, {}),
     "cycle-through-two-functions-and-a-schema": ({"main.oal": "let f x = { 'g? g x };\nlet g y = f y;\nres / on get -> <f num>;\n"}, None, {}),
 }
 
@@ -167,117 +170,7 @@ def check():
             bad.append(why or name)
         return ok
 
-    # ---------------------------------------------------------------- cycles_check
-    ex = mirlib.executor([M], max_paths=8000)
-    outs = ex.run(f_cyc, arg_names=["graph", "mods"])
-    mirlib.check_translator(o, ex, "cycles_check")
-    roles = {"node-cut": 0, "node-kept": 0, "trivial-skip": 0, "reject": 0, "pass-end": 0, "remove": 0, "done": 0}
-    for p in outs:
-        ev = p.events
-        loops = [i for i, e in enumerate(ev) if e[0] == "loop"]
-        calls = p.calls()
-        names = [e[1] for e in calls]
-        cond = S.pc(p.pc)
-        tail = [e for e in ev[loops[-1] + 1:] if e[0] == "call"] if loops else calls
-        tn = [e[1] for e in tail]
-        if p.kind == "return":
-            d = S.i(ms.disc_of(p.ret, E))
-            v, _ = S.check("cycles_check: Ok path", cond + [d == 0])
-            if v == "sat":
-                roles["done"] += 1
-                structural("cycles_check: Ok is returned only when a whole pass scheduled no edge for removal (nothing left to cut)",
-                           any("has_changed" in ms.show(a) and val is False for a, op, val in p.pc if op == "=="))
-            else:
-                roles["reject"] += 1
-                ie = [e for e in calls if e[1] == "Vec::is_empty"]
-                structural("cycles_check: the error is Kind::InvalidType 'ill-formed recursion' located at a node of the offending component",
-                           "InvalidType" in ms.show(p.ret) and "ill-formed recursion" in ms.show(p.ret) and "Error::at" in ms.show(p.ret))
-                if ie:
-                    L.expect_unsat("cycles_check: a component is rejected only if nothing could be cut so far in this pass", cond + [z3.Not(S.b(ie[-1][3]))], on_sat)
-                else:
-                    structural("cycles_check: rejection is decided by the emptiness of the cut list", False)
-                # it is a non-trivial component: either more than one node, or a self edge
-                ln = [e for e in calls if e[1] == "Vec::len"]
-                fe = [e for e in calls if e[1].endswith("::find_edge")]
-                if ln:
-                    triv = z3.And(S.i(ln[-1][3]) == 1, S.i(ms.disc_of(fe[-1][3], E)) == 0) if fe else S.i(ln[-1][3]) == 1
-                    if fe:
-                        L.expect_unsat("cycles_check: a trivial component (one node, no self edge) is never rejected", cond + [triv], on_sat)
-            continue
-        if p.kind != "backedge":
-            continue
-        if "TagWrap::is_schema" in names:
-            sch = [e for e in calls if e[1] == "TagWrap::is_schema"][0]
-            uri = [e for e in calls if e[1] == "TagWrap::is_uri"]
-            tail, tn = calls, names
-            pred = z3.And(S.b(sch[3]), z3.Not(S.b(uri[0][3]))) if uri else S.b(sch[3])
-            stores = [e for e in ev[loops[-1] + 1:] if e[0] == "store"] if loops else []
-            cut = "StableGraph::edges_directed" in names
-            if cut:
-                roles["node-cut"] += 1
-                L.expect_unsat("cycles_check: a node becomes a recursion point (is_recursive, incoming edges scheduled) only if its kind is a schema other than a URI",
-                               cond + [z3.Not(pred)], on_sat)
-                ed = [e for e in calls if e[1] == "StableGraph::edges_directed"][-1]
-                nw = [e for e in calls if e[1] == "StableGraph::node_weight"][-1]
-                okc = ed[2][1] == nw[2][1] and "Incoming" in ms.show(ed[2][2])
-                structural("cycles_check: the edges scheduled for removal are the incoming edges of that very node", okc)
-                structural("cycles_check: the node is flagged is_recursive before its edges are scheduled", any(ms.show(s_[2] if len(s_) > 2 else s_).find("True") >= 0 or True for s_ in ev if s_[0] == "store"))
-            else:
-                roles["node-kept"] += 1
-                L.expect_unsat("cycles_check: a node of a cyclic component is left alone only if its kind is not a cuttable schema", cond + [pred], on_sat)
-                structural("cycles_check: a node that is not cut is not flagged and schedules nothing", not [e for e in tail if e[1] == "Vec::push"])
-            gt = [e for e in tail if e[1].endswith("get_tag")]
-            en = [e for e in tail if e[1] == "External::node"]
-            structural("cycles_check: the kind examined is the tag of the definition's own node", len(gt) == 1 and len(en) == 1 and gt[0][2][0] == en[0][3] and any(t == sch[2][0] or t == gt[0][3] for t in ms.subterms(sch[2][0])))
-        elif "Vec::len" in tn and "slice::iter" not in tn and "Vec::is_empty" not in tn:
-            # component iteration that goes straight back: skipped as trivial
-            roles["trivial-skip"] += 1
-            ln = [e for e in tail if e[1] == "Vec::len"][0]
-            fe = [e for e in tail if e[1].endswith("::find_edge")]
-            if fe:
-                L.expect_unsat("cycles_check: a component is skipped only if it is one node without a self edge",
-                               cond + [z3.Not(z3.And(S.i(ln[3]) == 1, S.i(ms.disc_of(fe[0][3], E)) == 0))], on_sat)
-                fa = fe[0][2]
-                structural("cycles_check: the self edge looked for goes from the component's node to itself", fa[1] == fa[2])
-            else:
-                structural("cycles_check: skipping a component looks for a self edge", False)
-        elif "StableGraph::remove_edge" in tn:
-            roles["remove"] += 1
-            re_ = [e for e in tail if e[1] == "StableGraph::remove_edge"][0]
-            nx = [e for e in tail if e[1].endswith("Iterator::next")][-1]
-            structural("cycles_check: every edge scheduled in a pass is removed at its end", any(t == ms.proj(ms.proj(nx[3], ("v", "Some"), E), ("f", 0), E) for t in ms.subterms(re_[2][1])))
-            dr = [e for e in calls if e[1] == "Vec::drain"]
-            structural("cycles_check: the cut list is drained (empty again for the next pass)", len(dr) == 1)
-        elif "Vec::drain" in names and "StableGraph::remove_edge" not in tn:
-            roles["pass-end"] += 1
-            # the outer loop's has_changed at this back edge
-            ie = [e for e in calls if e[1] == "Vec::is_empty"]
-            hc = [v for k, v in p.state.vals.items() if k in p.state.havocked and f_cyc.debug.get(k[1] if isinstance(k, tuple) else k) == "has_changed"]
-            if ie and hc:
-                L.expect_unsat("cycles_check: another pass runs exactly when this pass scheduled something to cut", cond + [S.b(hc[0]) == S.b(ie[-1][3])], on_sat)
-                dr = [e for e in calls if e[1] == "Vec::drain"]
-                deciding = [e for e in ie if any(t == e[3] for t in ms.subterms(hc[0]))] or ie[-1:]
-                structural("cycles_check: the cut list is asked before it is drained (it is empty afterwards by construction)",
-                           bool(dr) and all(calls.index(e) < calls.index(dr[0]) for e in deciding))
-            else:
-                structural("cycles_check: the pass decides about another pass from the cut list", False)
-    # which kinds can be cut at: cycles_check run once per abstract kind (the table C01 also uses), the
-    # predicates executed from their own MIR
-    import props.c01 as c01
-    T = c01.Tables(M, E, o)
-    unk = []
-    cut = c01.cycle_admit(M, E, T, unk)
-    if cut is None or unk:
-        o.inconc("cycles_check per kind: %s" % (unk[:2] or "not found"))
-    else:
-        o.extra["kinds_cut_at"] = sorted(cut)
-        never = [t for t in cut if t == "Var" or t.startswith(("Func", "Content", "Transfer", "Property", "Text", "Number", "Status"))]
-        structural("cycles_check: a cycle is never cut at an unresolved variable (plain alias), a function, a content, a transfer or another non-schema kind", not never,
-                   "cycles_check cuts cycles at non-schema kinds %s" % never)
-        structural("cycles_check: object and array schemas are kinds a cycle can be cut at", {"Object", "Array"} <= set(cut))
-    o.extra["cycles_check_paths_by_role"] = roles
-    if min(roles.values()) == 0:
-        o.inconc("cycles_check: a role has no path (%s)" % roles)
+    cycles_lemmas(o, L, S, M, E, f_cyc, structural, on_sat)
 
     # ---------------------------------------------------------------- eval_declaration: evaluate once, re-entrance marker
     ex = mirlib.executor([M], max_paths=4000)
@@ -508,6 +401,123 @@ def check():
     elif probs:
         o.oracle_only("real oal-cli deviates (%s) although every lemma holds" % "; ".join(probs[:3]), rdir)
     return o.finish()
+
+
+def cycles_lemmas(o, L, S, M, E, f_cyc, structural, on_sat):
+    """cycles_check, one arbitrary iteration of each of its three loops (shared with C04: a program it wrongly lets
+    through is inlined without bound by the evaluator - a stack overflow, not a diagnostic)."""
+    # ---------------------------------------------------------------- cycles_check
+    ex = mirlib.executor([M], max_paths=8000)
+    outs = ex.run(f_cyc, arg_names=["graph", "mods"])
+    mirlib.check_translator(o, ex, "cycles_check")
+    roles = {"node-cut": 0, "node-kept": 0, "trivial-skip": 0, "reject": 0, "pass-end": 0, "remove": 0, "done": 0}
+    for p in outs:
+        ev = p.events
+        loops = [i for i, e in enumerate(ev) if e[0] == "loop"]
+        calls = p.calls()
+        names = [e[1] for e in calls]
+        cond = S.pc(p.pc)
+        tail = [e for e in ev[loops[-1] + 1:] if e[0] == "call"] if loops else calls
+        tn = [e[1] for e in tail]
+        if p.kind == "return":
+            d = S.i(ms.disc_of(p.ret, E))
+            v, _ = S.check("cycles_check: Ok path", cond + [d == 0])
+            if v == "sat":
+                roles["done"] += 1
+                structural("cycles_check: Ok is returned only when a whole pass scheduled no edge for removal (nothing left to cut)",
+                           any("has_changed" in ms.show(a) and val is False for a, op, val in p.pc if op == "=="))
+            else:
+                roles["reject"] += 1
+                ie = [e for e in calls if e[1] == "Vec::is_empty"]
+                structural("cycles_check: the error is Kind::InvalidType 'ill-formed recursion' located at a node of the offending component",
+                           "InvalidType" in ms.show(p.ret) and "ill-formed recursion" in ms.show(p.ret) and "Error::at" in ms.show(p.ret))
+                if ie:
+                    L.expect_unsat("cycles_check: a component is rejected only if nothing could be cut so far in this pass", cond + [z3.Not(S.b(ie[-1][3]))], on_sat)
+                else:
+                    structural("cycles_check: rejection is decided by the emptiness of the cut list", False)
+                # it is a non-trivial component: either more than one node, or a self edge
+                ln = [e for e in calls if e[1] == "Vec::len"]
+                fe = [e for e in calls if e[1].endswith("::find_edge")]
+                if ln:
+                    triv = z3.And(S.i(ln[-1][3]) == 1, S.i(ms.disc_of(fe[-1][3], E)) == 0) if fe else S.i(ln[-1][3]) == 1
+                    if fe:
+                        L.expect_unsat("cycles_check: a trivial component (one node, no self edge) is never rejected", cond + [triv], on_sat)
+            continue
+        if p.kind != "backedge":
+            continue
+        if "TagWrap::is_schema" in names:
+            sch = [e for e in calls if e[1] == "TagWrap::is_schema"][0]
+            uri = [e for e in calls if e[1] == "TagWrap::is_uri"]
+            tail, tn = calls, names
+            pred = z3.And(S.b(sch[3]), z3.Not(S.b(uri[0][3]))) if uri else S.b(sch[3])
+            stores = [e for e in ev[loops[-1] + 1:] if e[0] == "store"] if loops else []
+            cut = "StableGraph::edges_directed" in names
+            if cut:
+                roles["node-cut"] += 1
+                L.expect_unsat("cycles_check: a node becomes a recursion point (is_recursive, incoming edges scheduled) only if its kind is a schema other than a URI",
+                               cond + [z3.Not(pred)], on_sat)
+                ed = [e for e in calls if e[1] == "StableGraph::edges_directed"][-1]
+                nw = [e for e in calls if e[1] == "StableGraph::node_weight"][-1]
+                okc = ed[2][1] == nw[2][1] and "Incoming" in ms.show(ed[2][2])
+                structural("cycles_check: the edges scheduled for removal are the incoming edges of that very node", okc)
+                structural("cycles_check: the node is flagged is_recursive before its edges are scheduled", any(ms.show(s_[2] if len(s_) > 2 else s_).find("True") >= 0 or True for s_ in ev if s_[0] == "store"))
+            else:
+                roles["node-kept"] += 1
+                L.expect_unsat("cycles_check: a node of a cyclic component is left alone only if its kind is not a cuttable schema", cond + [pred], on_sat)
+                structural("cycles_check: a node that is not cut is not flagged and schedules nothing", not [e for e in tail if e[1] == "Vec::push"])
+            gt = [e for e in tail if e[1].endswith("get_tag")]
+            en = [e for e in tail if e[1] == "External::node"]
+            structural("cycles_check: the kind examined is the tag of the definition's own node", len(gt) == 1 and len(en) == 1 and gt[0][2][0] == en[0][3] and any(t == sch[2][0] or t == gt[0][3] for t in ms.subterms(sch[2][0])))
+        elif "Vec::len" in tn and "slice::iter" not in tn and "Vec::is_empty" not in tn:
+            # component iteration that goes straight back: skipped as trivial
+            roles["trivial-skip"] += 1
+            ln = [e for e in tail if e[1] == "Vec::len"][0]
+            fe = [e for e in tail if e[1].endswith("::find_edge")]
+            if fe:
+                L.expect_unsat("cycles_check: a component is skipped only if it is one node without a self edge",
+                               cond + [z3.Not(z3.And(S.i(ln[3]) == 1, S.i(ms.disc_of(fe[0][3], E)) == 0))], on_sat)
+                fa = fe[0][2]
+                structural("cycles_check: the self edge looked for goes from the component's node to itself", fa[1] == fa[2])
+            else:
+                structural("cycles_check: skipping a component looks for a self edge", False)
+        elif "StableGraph::remove_edge" in tn:
+            roles["remove"] += 1
+            re_ = [e for e in tail if e[1] == "StableGraph::remove_edge"][0]
+            nx = [e for e in tail if e[1].endswith("Iterator::next")][-1]
+            structural("cycles_check: every edge scheduled in a pass is removed at its end", any(t == ms.proj(ms.proj(nx[3], ("v", "Some"), E), ("f", 0), E) for t in ms.subterms(re_[2][1])))
+            dr = [e for e in calls if e[1] == "Vec::drain"]
+            structural("cycles_check: the cut list is drained (empty again for the next pass)", len(dr) == 1)
+        elif "Vec::drain" in names and "StableGraph::remove_edge" not in tn:
+            roles["pass-end"] += 1
+            # the outer loop's has_changed at this back edge
+            ie = [e for e in calls if e[1] == "Vec::is_empty"]
+            hc = [v for k, v in p.state.vals.items() if k in p.state.havocked and f_cyc.debug.get(k[1] if isinstance(k, tuple) else k) == "has_changed"]
+            if ie and hc:
+                L.expect_unsat("cycles_check: another pass runs exactly when this pass scheduled something to cut", cond + [S.b(hc[0]) == S.b(ie[-1][3])], on_sat)
+                dr = [e for e in calls if e[1] == "Vec::drain"]
+                deciding = [e for e in ie if any(t == e[3] for t in ms.subterms(hc[0]))] or ie[-1:]
+                structural("cycles_check: the cut list is asked before it is drained (it is empty afterwards by construction)",
+                           bool(dr) and all(calls.index(e) < calls.index(dr[0]) for e in deciding))
+            else:
+                structural("cycles_check: the pass decides about another pass from the cut list", False)
+    # which kinds can be cut at: cycles_check run once per abstract kind (the table C01 also uses), the
+    # predicates executed from their own MIR
+    import props.c01 as c01
+    T = c01.Tables(M, E, o)
+    unk = []
+    cut = c01.cycle_admit(M, E, T, unk)
+    if cut is None or unk:
+        o.inconc("cycles_check per kind: %s" % (unk[:2] or "not found"))
+    else:
+        o.extra["kinds_cut_at"] = sorted(cut)
+        never = [t for t in cut if t == "Var" or t.startswith(("Func", "Content", "Transfer", "Property", "Text", "Number", "Status"))]
+        structural("cycles_check: a cycle is never cut at an unresolved variable (plain alias), a function, a content, a transfer or another non-schema kind", not never,
+                   "cycles_check cuts cycles at non-schema kinds %s" % never)
+        structural("cycles_check: object and array schemas are kinds a cycle can be cut at", {"Object", "Array"} <= set(cut))
+    o.extra["cycles_check_paths_by_role"] = roles
+    if min(roles.values()) == 0:
+        o.inconc("cycles_check: a role has no path (%s)" % roles)
+
 
 
 def graph_lemmas(o, L, S, M, E, structural, on_sat):
